@@ -2274,7 +2274,11 @@ func listStyleType_(tokens []Token) (out pr.CounterStyleID, ok bool) {
 	token := tokens[0]
 	switch token := token.(type) {
 	case pa.Ident:
-		return pr.CounterStyleID{Name: string(token.Value)}, true
+		name := string(token.Value)
+		if utils.AsciiLower(name) == "none" { // the keyword is case-insensitive, the names of styles are not
+			name = "none"
+		}
+		return pr.CounterStyleID{Name: name}, true
 	case pa.String:
 		return pr.CounterStyleID{Type: "string", Name: token.Value}, true
 	case pa.FunctionBlock:
